@@ -6,4 +6,5 @@ MCProg == (1 :> <<[api |-> "put", key |-> "k", val |-> "a", chunks |-> 2], [api 
           (2 :> <<[api |-> "set", key |-> "k", val |-> "b", chunks |-> 1], [api |-> "get", key |-> "k", val |-> "", chunks |-> 0]>>)
 MCPre == {[key |-> "k", val |-> "old"]}
 NoDebris == {}
+NoKeyShards == <<>>
 ====
